@@ -181,6 +181,16 @@ def run(ctx):
               % (len(objs), len(objs) - min(nwritable, len(objs))))
     ctx.extra["shared_objects"] = sorted(q for _, _, q, _ in objs)
 
+    h2(ctx, R)
+    h3(ctx, R)
+
+    # ---- H4 ----------------------------------------------------------------------
+    ctx.rule("H4", "factory isolation: no call from factory.py can read the registry")
+    h4(ctx, R)
+
+
+def h2(ctx, R):
+    prog = ctx.program
     # ---- H2 ----------------------------------------------------------------------
     ctx.rule("H2", "reset coverage: every Parser attribute written by a token handler is re-initialised by the reset; reset dominates the loop")
     handlers = [f for f in R.Parser.methods.values() if f not in (R.reset, R.parse) and f.name not in ("__init__", "parse_file", "dump")]
@@ -247,6 +257,10 @@ def run(ctx):
             ctx.violation("H2", R.scan, "lexer-not-reset:%s" % attr, "Lexer.%s is not (re)initialised at the start of scan" % attr, node=R.scan.node,
                           witness="a reused Parser starts lexing the new text at the old position")
 
+
+
+def h3(ctx, R):
+    prog = ctx.program
     # ---- H3 ----------------------------------------------------------------------
     ctx.rule("H3", "the reset empties the extension registry before the first lookup of a parse")
     regw = [n for n in walk_no_nested(R.reset.node) if isinstance(n, ast.Assign) and any(
@@ -269,9 +283,6 @@ def run(ctx):
                 ctx.violation("H3", R.reset, "registry-shadowed", "the reset assigns loaded_extensions on the parser instance, not on RequireCommand",
                               node=n)
 
-    # ---- H4 ----------------------------------------------------------------------
-    ctx.rule("H4", "factory isolation: no call from factory.py can read the registry")
-    h4(ctx, R)
 
 
 def contains_node(root, node):
